@@ -96,6 +96,39 @@ func Counts() map[string]int {
 	return out
 }
 
+// Spawn / Enter / Exit turn a goroutine started by the code under test into
+// a task of the simulator (see the rewriting of go statements).
+var (
+	Spawn func() int
+	Enter func(h int)
+	Exit  func(h int, panicked any)
+)
+
+func GoSpawn() int {
+	if Spawn != nil {
+		return Spawn()
+	}
+	return -1
+}
+
+func GoEnter(h int) {
+	if Enter != nil {
+		Enter(h)
+	}
+}
+
+// GoExit is deferred first in the goroutine, so it runs last.
+func GoExit(h int) {
+	r := recover()
+	if Exit != nil {
+		Exit(h, r)
+		return
+	}
+	if r != nil {
+		panic(r)
+	}
+}
+
 func Size(n int) int {
 	if LRUSize != nil {
 		return LRUSize(n)
@@ -131,6 +164,7 @@ type Report struct {
 	LockSites  []string `json:"lock_sites"`
 	SyncSites  []string `json:"sync_sites"`
 	BlockSites []string `json:"block_sites"`
+	GoSites    []string `json:"go_sites"`
 	SizeSites  []string `json:"lru_size_sites"`
 	ProbeSites []string `json:"probe_sites,omitempty"`
 	Files      int      `json:"files_rewritten"`
@@ -190,6 +224,8 @@ func Generate(repo, dir string) (string, *Report, error) {
 		}
 		rel, _ := filepath.Rel(root, f)
 		var edits []edit
+		var dels [][2]int // source ranges replaced by an edit at their start
+		goN := 0
 		isPypi := af.Name.Name == "pypi"
 		isLockCall := func(e ast.Expr, names ...string) bool {
 			call, ok := e.(*ast.CallExpr)
@@ -264,6 +300,67 @@ func Generate(repo, dir string) (string, *Report, error) {
 						edits = append(edits, edit{cp.Offset, "func() { verifhook.U(); "}, edit{end.Offset, " }()"})
 						continue
 					}
+				}
+				if gs, ok := st.(*ast.GoStmt); ok {
+					// A goroutine of the code under test becomes a task: the
+					// parent registers it, the goroutine reports in and waits
+					// for the baton, and says when it ends. Function value and
+					// arguments are still evaluated at the go statement.
+					goN++
+					h := fmt.Sprintf("__vh%d", goN)
+					point := fmt.Sprintf("go:%s:%d", rel, pos.Line)
+					rep.GoSites = append(rep.GoSites, point)
+					enter := fmt.Sprintf(" verifhook.GoEnter(%s); defer verifhook.GoExit(%s);", h, h)
+					if fl, ok := gs.Call.Fun.(*ast.FuncLit); ok {
+						edits = append(edits, edit{pos.Offset, h + " := verifhook.GoSpawn(); "},
+							edit{fset.Position(fl.Body.Lbrace).Offset + 1, enter})
+						continue
+					}
+					text := func(n ast.Node) string {
+						return string(src[fset.Position(n.Pos()).Offset:fset.Position(n.End()).Offset])
+					}
+					var lhs, rhs, args []string
+					fn := text(gs.Call.Fun)
+					builtin := false
+					if id, ok := gs.Call.Fun.(*ast.Ident); ok {
+						switch id.Name {
+						case "close", "panic", "print", "println", "delete", "copy", "clear":
+							builtin = true
+						}
+					}
+					if !builtin {
+						lhs, rhs = append(lhs, fmt.Sprintf("__vf%d", goN)), append(rhs, fn)
+						fn = fmt.Sprintf("__vf%d", goN)
+					}
+					for ai, a := range gs.Call.Args {
+						inline := false
+						switch x := a.(type) {
+						case *ast.BasicLit:
+							inline = true
+						case *ast.Ident:
+							inline = x.Name == "nil" || x.Name == "true" || x.Name == "false"
+						}
+						if inline {
+							args = append(args, text(a))
+							continue
+						}
+						v := fmt.Sprintf("__va%d_%d", goN, ai)
+						lhs, rhs = append(lhs, v), append(rhs, text(a))
+						args = append(args, v)
+					}
+					call := fn + "(" + strings.Join(args, ", ")
+					if gs.Call.Ellipsis.IsValid() {
+						call += "..."
+					}
+					call += ")"
+					pre := h + " := verifhook.GoSpawn(); "
+					if len(lhs) > 0 {
+						pre += strings.Join(lhs, ", ") + " := " + strings.Join(rhs, ", ") + "; "
+					}
+					// replace the whole statement
+					dels = append(dels, [2]int{pos.Offset, end.Offset})
+					edits = append(edits, edit{pos.Offset, pre + "go func() {" + enter + " " + call + " }()"})
+					continue
 				}
 				// possibly blocking statements: <-ch, x := <-ch, ch <- v,
 				// select without default, x.Wait()
@@ -377,10 +474,21 @@ func Generate(repo, dir string) (string, *Report, error) {
 		sort.SliceStable(edits, func(i, j int) bool { return edits[i].off < edits[j].off })
 		var sb strings.Builder
 		last := 0
+		skipTo := func(off int) int {
+			for _, d := range dels {
+				if off >= d[0] && off < d[1] {
+					return d[1]
+				}
+			}
+			return off
+		}
 		for _, e := range edits {
+			if e.off < last {
+				continue // inside a replaced range
+			}
 			sb.Write(src[last:e.off])
 			sb.WriteString(e.text)
-			last = e.off
+			last = skipTo(e.off)
 		}
 		sb.Write(src[last:])
 		outp := filepath.Join(dir, fmt.Sprintf("f%03d_%s.txt", i, strings.ReplaceAll(rel, "/", "_")))
